@@ -275,7 +275,15 @@ func genLeaseIO(r *rng.R, c, nclients int, lease uint64) []hop {
 	}
 	var hs []hop
 	if r.Chance(50) {
-		hs = append(hs, hop{K: "solo", C: c, What: "exid", Tag: tag}, hop{K: "solo", C: c, What: "cs", Tag: tag})
+		// (re-)registration spread over time: CREATE_SESSION renews the lease as well
+		hs = append(hs, hop{K: "solo", C: c, What: "exid", Tag: tag})
+		if r.Chance(60) {
+			hs = append(hs, hop{K: "adv", D: frac(40, 90), Tag: tag})
+		}
+		hs = append(hs, hop{K: "solo", C: c, What: "cs", Tag: tag})
+		if r.Chance(60) {
+			hs = append(hs, hop{K: "adv", D: frac(40, 90), Tag: tag})
+		}
 	}
 	hs = append(hs, seq([]cop{{O: "putroot"}, {O: "open", Ow: ow, F: 1 + f, Acc: 3, How: 1, Claim: "null"}}, nil))
 	style := r.Intn(100)
